@@ -29,6 +29,14 @@ class BuiltinMixin:
 
     def bi_isinstance(self, st, a, kw, n):
         cnode = n.args[1]
+        if isinstance(cnode, ast.Name) and isinstance(st.env.get(cnode.id), V):
+            # class object held in a local variable: ghost predicate (no static knowledge of the class)
+            f = z3.Function("isinstance_dyn", Val, Val, z3.BoolSort())
+            return R(st, V(BoolV(f(a[0].t, st.env[cnode.id].t)), "bool"))
+        if isinstance(cnode, ast.Attribute) and isinstance(cnode.value, ast.Name) and isinstance(st.env.get(cnode.value.id), V):
+            f = z3.Function("isinstance_dyn", Val, Val, z3.BoolSort())
+            cv = self.ev1(st, cnode)
+            return R(st, V(BoolV(f(a[0].t, cv.t)), "bool"))
         names = [self.dotted(e) for e in cnode.elts] if isinstance(cnode, ast.Tuple) else [self.dotted(cnode)]
         if any(x is None for x in names):
             raise Unsupported("isinstance class expression")
@@ -43,7 +51,8 @@ class BuiltinMixin:
         if ty == "int": return R(st, x)
         if ty == "bool": return R(st, V(IntV(z3.If(Val.b(x.t), 1, 0)), "int"))
         if ty == "float":
-            return R(st, V(IntV(z3.ToInt(Val.f(x.t))), "int"))    # exact for the integral values it is used on
+            f = Val.f(x.t)      # int() truncates towards zero
+            return R(st, V(IntV(z3.If(f >= 0, z3.ToInt(f), -z3.ToInt(-f))), "int"))
         if ty == "str" and self.spec_depth:
             return R(st, V(IntV(int_of_str(Val.s(x.t))), "int"))
         if ty == "str":
@@ -67,6 +76,13 @@ class BuiltinMixin:
             return R(st, V(Val.FloatV(z3.RealVal(-10**30 if n.args[0].value == "-inf" else 10**30)), "float"))
         t = x.t
         return R(st, V(Val.FloatV(z3.If(Val.is_FloatV(t), Val.f(t), z3.ToReal(Val.i(t)))), "float"))
+
+    def bi_math_modf(self, st, a, kw, n):
+        """math.modf(x) = (fractional part, integral part), both floats with the sign of x (mathematical reals)"""
+        x = a[0]
+        f = Val.f(x.t) if base_type(x.ty) == "float" else z3.If(Val.is_FloatV(x.t), Val.f(x.t), z3.ToReal(Val.i(x.t)))
+        ip = z3.ToReal(z3.If(f >= 0, z3.ToInt(f), -z3.ToInt(-f)))
+        return R(st, self.new_list(st, self.mkseq([V(Val.FloatV(f - ip), "float"), V(Val.FloatV(ip), "float")]), "tuple"))
 
     def bi_bool(self, st, a, kw, n):
         return R(st, V(BoolV(self.truth(st, a[0])), "bool"))
@@ -250,7 +266,15 @@ class BuiltinMixin:
 
     # ------------------------------------------------------------------ list / set / dict methods
     def m_list_append(self, st, recv, a, kw, lineno):
-        st.write("$elems", Val.r(recv.t), z3.Concat(self.elems(st, recv), z3.Unit(a[0].t)))
+        old = self.elems(st, recv)
+        ns = z3.Const(fresh_name("app"), SeqV)
+        k = fresh_int("k")
+        st.assume(ns == z3.Concat(old, z3.Unit(a[0].t)), definitional=True)
+        # consequences stated explicitly (sequence reasoning under quantifiers is weak in the solvers)
+        st.assume(z3.Length(ns) == z3.Length(old) + 1, definitional=True)
+        st.assume(ns[z3.Length(old)] == a[0].t, definitional=True)
+        st.assume(qforall([k], z3.Implies(z3.And(0 <= k, k < z3.Length(old)), ns[k] == old[k]), patterns=[ns[k]]), definitional=True)
+        st.write("$elems", Val.r(recv.t), ns)
         return R(st, V(NONE, "none"))
 
     def m_list_extend(self, st, recv, a, kw, lineno):
